@@ -119,6 +119,9 @@ Definition entry (sel : Z) (toks : list Z) : list Z :=
   | 105 => match run_dec (let* g := dGraph in let* d := dBool in let* o := dList dZ in ret (g, d, o)) toks with
            | Some (g, d, o) => eBool (law_topo g d o)
            | None => bad_input end
+  | 107 => match run_dec (let* o := dOracles in let* a := dJob in let* b := dJob in let* v := dBool in ret (o, a, b, v)) toks with
+           | Some (o, a, b, v) => eBool (law_update_claimname o a b v)
+           | None => bad_input end
   | 106 => match run_dec (dPair dOracles dJob) toks with
            | Some (o, j) => eBool (law_persist o j)
            | None => bad_input end
